@@ -4,6 +4,7 @@ package main
 
 import (
 	"math"
+	"reflect"
 	"time"
 
 	"github.com/mithrandie/csvq/lib/value"
@@ -47,4 +48,44 @@ func poisonTexts() map[string]string {
 		poisonTime.UTC().Format("2006-01-02T15:04:05"): "datetime",
 		poisonTime.UTC().Format("2006-01-02 15:04:05"): "datetime",
 	}
+}
+
+// poisonInTree walks a parsed statement (structs, slices, interfaces, pointers) and reports the first
+// literal value that holds a poison: the syntax tree still points at an object that was discarded.
+func poisonInTree(x reflect.Value, depth int) string {
+	if depth > 80 || !x.IsValid() {
+		return ""
+	}
+	switch x.Kind() {
+	case reflect.Ptr, reflect.Interface:
+		if x.IsNil() {
+			return ""
+		}
+		if x.CanInterface() {
+			if p, ok := x.Interface().(value.Primary); ok {
+				return poisonOf(p)
+			}
+		}
+		return poisonInTree(x.Elem(), depth+1)
+	case reflect.Struct:
+		for i := 0; i < x.NumField(); i++ {
+			if w := poisonInTree(x.Field(i), depth+1); w != "" {
+				return w
+			}
+		}
+	case reflect.Slice, reflect.Array:
+		for i := 0; i < x.Len(); i++ {
+			if w := poisonInTree(x.Index(i), depth+1); w != "" {
+				return w
+			}
+		}
+	case reflect.Map:
+		it := x.MapRange()
+		for it.Next() {
+			if w := poisonInTree(it.Value(), depth+1); w != "" {
+				return w
+			}
+		}
+	}
+	return ""
 }
